@@ -137,6 +137,9 @@ func runPolicy(m *Material, r polRow) (problems []string, gotErr string, matches
 				problems = append(problems, "weakened: endorsement SVN below the base minimum accepted without overwrite")
 			}
 		}
+		if base.Policy == 0 && out.Policy != ProdPolicy {
+			problems = append(problems, fmt.Sprintf("not-from-endorsement: the base names no guest policy, so the result's is the endorsement's; it is %#x", out.Policy))
+		}
 		if out.Policy != base.Policy && out.Policy != ProdPolicy {
 			problems = append(problems, "not-from-endorsement: guest policy is neither the base's nor the endorsement's")
 		}
@@ -181,7 +184,8 @@ func runPolicy(m *Material, r polRow) (problems []string, gotErr string, matches
 		}
 	}
 	// tdx
-	gs := GoldenSpec{Tdx: []*epb.VMTdx_Measurement{{RamGib: 16, Mrtd: Meas("t16")}, {RamGib: 0, Mrtd: Meas("t0")}}, Svn: 1, Digest: Meas("fw"), Timestamp: time.Date(2025, 2, 1, 0, 0, 0, 0, time.UTC), ClSpec: 1, Cert: m.SignCert.Raw}
+	// (two measurements for 16 GiB: with and without early accept, as the signer lists them for a shape)
+	gs := GoldenSpec{Tdx: []*epb.VMTdx_Measurement{{RamGib: 16, Mrtd: Meas("t16")}, {RamGib: 16, EarlyAccept: true, Mrtd: Meas("t16e")}, {RamGib: 0, Mrtd: Meas("t0")}}, Svn: 1, Digest: Meas("fw"), Timestamp: time.Date(2025, 2, 1, 0, 0, 0, 0, time.UTC), ClSpec: 1, Cert: m.SignCert.Raw}
 	e := Endorse(gs.Proto(), m.S)
 	var base *tcpb.Policy
 	hdr := &tcpb.HeaderPolicy{MinimumQeSvn: 3, QeVendorId: bytes.Repeat([]byte{1}, 16)}
@@ -217,9 +221,9 @@ func runPolicy(m *Material, r polRow) (problems []string, gotErr string, matches
 	var want [][]byte
 	switch ram {
 	case 16:
-		want = [][]byte{Meas("t16")}
+		want = [][]byte{Meas("t16"), Meas("t16e")}
 	case 0:
-		want = [][]byte{Meas("t16"), Meas("t0")}
+		want = [][]byte{Meas("t16"), Meas("t16e"), Meas("t0")}
 	}
 	if !sameList(out.GetTdQuoteBodyPolicy().GetAnyMrTd(), want) {
 		problems = append(problems, "not-from-endorsement: MRTD allow-list is not the endorsement's list for the requested RAM size")
